@@ -317,6 +317,65 @@ Theorem C18_group_by_tag_first : forall t gt gv c g,
 Proof. exact group_by_tag_first. Qed.
 Print Assumptions C18_group_by_tag_first.
 
+(* ------------------------------------------------------------------ items handed out by the accessors *)
+
+(* The accessors return the stored item objects; a method called on such an item changes the
+   container.  `at_path path f c` is the container after calling f on the item reached from c by a
+   path of get_group_by_index / get_group_by_tag / get_group_list(..)[n] calls (OAt in the operation
+   language, so all sequence theorems - C18_keys_unique - cover these mutations too). *)
+
+(* the position `locate` computes is the very item the accessor returns *)
+Theorem C18_locate_by_index : forall t idx c,
+  c_get_group_by_index t idx c =
+  match locate (SIdx t idx) c with Ok (_, _, _, x) => Ok x | Exc e => Exc e end.
+Proof. exact locate_by_index. Qed.
+Print Assumptions C18_locate_by_index.
+
+Theorem C18_locate_by_tag : forall t gt gv c,
+  c_get_group_by_tag t gt gv c =
+  match locate (STag t gt gv) c with Ok (_, _, _, x) => Ok x | Exc e => Exc e end.
+Proof. exact locate_by_tag. Qed.
+Print Assumptions C18_locate_by_tag.
+
+(* a change made through an accessor is a change of the container: the group holds the changed item
+   at the same position (so every later accessor, == and str see it), nothing else moves *)
+Theorem C18_nested_mutation_visible : forall (s : pstep) (f : container -> container * outcome) c k g n x,
+  locate s c = Ok (k, g, n, x) ->
+  let c' := fst (at_path [s] f c) in
+  at_path [s] f c = (with_items c (assign k (VGrp (set_nth n (fst (f x)) g)) (items c)), Ok (snd (f x)))
+  /\ c_get_group_list (step_tag s) c' = Ok (set_nth n (fst (f x)) g)
+  /\ nth_error (set_nth n (fst (f x)) g) n = Some (fst (f x))
+  /\ keys c' = keys c /\ mt c' = mt c
+  /\ forall k', k' <> k -> lookup k' (items c') = lookup k' (items c).
+Proof. exact (@at_path_one outcome). Qed.
+Print Assumptions C18_nested_mutation_visible.
+
+(* a failing accessor on the way, or a call that leaves the item unchanged (a read, a refused set),
+   leaves the whole container unchanged *)
+Theorem C18_nested_error_unchanged : forall path (f : container -> container * outcome) c c' e,
+  at_path path f c = (c', Exc e) -> c' = c.
+Proof. exact (@at_path_error outcome). Qed.
+Print Assumptions C18_nested_error_unchanged.
+
+Theorem C18_nested_noop_unchanged : forall path (f : container -> container * outcome) c,
+  (forall x, fst (f x) = x) -> fst (at_path path f c) = c.
+Proof. exact (@at_path_id outcome). Qed.
+Print Assumptions C18_nested_noop_unchanged.
+
+(* == has no memory: it follows the current content through a history of comparisons and in-place
+   changes (append to an existing group, set / delete inside an item reached by each accessor) *)
+Example C18_eq_follows_history :
+  outcomes (init 2) hist_ops =
+  [RNone; RNone; RBool true;
+   RNone; RBool false; RBool false;
+   RNone; RBool true;
+   RNone; RBool false; RBool false;
+   RNone; RBool true;
+   RNone; RBool false;
+   RExc ETagNotFound].
+Proof. exact eq_follows_history. Qed.
+Print Assumptions C18_eq_follows_history.
+
 (* ------------------------------------------------------------------ query *)
 
 Theorem C18_query_int : forall z c,
